@@ -1443,3 +1443,79 @@ def replay_chainmut(run, body):
 
 
 REPLAYERS["chainmut"] = replay_chainmut
+
+
+# =============================================================== C10 untrusted bytes (WireAdversary)
+
+def adv_text(c):
+    t = " + ".join("%s=%s" % (k["f"], k["v"]) for k in c["knobs"]) or "valid token"
+    return t + (" + byte corruption #%d" % c["corrupt"] if c.get("corrupt") else "")
+
+
+def adv_judge(c, o):
+    if o.get("crash"):
+        return ["the worker process died (panic outside the calling goroutine or fatal error): " + o.get("stderr", "")[:400].replace("\n", " | ")]
+    if "panics" not in o:
+        return ["driver: " + json.dumps(o)[:300]]
+    bad = ["panic in " + p for p in o["panics"][:3]]
+    if c.get("gated") and not c.get("corrupt") and not o["rejected"]:
+        bad.append("token passes Unmarshal and verification although %s must be rejected by the decode-time gates" % adv_text(c))
+    return bad
+
+
+@check("C10", "exploration")
+def c10(run):
+    run.rule = ("WireAdversary.tla defines the adversarial input space: 17 fields of the envelope / block / Datalog messages with per-field "
+                "boundary values (symbol and variable indexes 0..2^64-1, secret / key / signature lengths, empty oneofs, sets of bytes / "
+                "mixed / nested / empty, variables in facts, ill-formed operator sequences, unbound head variables, versions, 0 or 40 "
+                "blocks, duplicate / huge / invalid symbols ...); TLC enumerates every single value and every pair on different fields "
+                "(5,784 cases), checks totality of the 13-operation panel and fixes the outcome for gate-guarded fields. Each case is "
+                "encoded with a raw protowire writer, validly signed by an attacker root so evaluation is reached, and the panel "
+                "(Unmarshal, String, Code, Serialize, GetBlockID, AuthorizerFor under 2 keys, Authorize with 3 authorizer contents, Query, "
+                "Append, Seal, LoadPolicies) runs in an isolated worker; plus seeded byte-level corruptions (flip, truncate, duplicate "
+                "slice, insert over-long varints, delete). Non-trivial = distinct cases (every one carries an adversarial value).")
+    run.assumptions = ["'all byte strings' is sampled through spec-defined structured cases and seeded byte corruption, not enumerated",
+                       "a recovered panic in any panel operation, or the death of the worker process, is the violation"]
+    driver = core.build_driver(run.work)
+    r = core.tlc(run.work, "WireAdversary", "WireAdversary_quick", deadlock=False)
+    run.add_tlc(r, "L1 totality / gates over all single and pairwise adversarial cases + export")
+    cases = []
+    for i, c in enumerate(r.cases):
+        cases.append({"id": "v%d" % i, "knobs": c["knobs"], "gated": c["gated"]})
+    ncor = 4000 if run.tier == "quick" else 150000
+    import random
+    rnd = random.Random(run.seed)
+    for i in range(ncor):
+        base = rnd.choice(r.cases)["knobs"] if i % 3 == 0 else []
+        cases.append({"id": "b%d" % i, "knobs": base, "gated": False, "corrupt": run.seed * 1000003 + i + 1})
+    res = core.run_driver(driver, "adv", cases, per_case_timeout=120)
+    by_id = {c["id"]: c for c in cases}
+    nrep = 0
+    for c in cases:
+        o = res[c["id"]]
+        run.count(adv_text(c))
+        bad = adv_judge(c, o)
+        if bad and nrep < 30:
+            nrep += 1
+            rc = confirm_case(driver, "adv", c, o, ("panics", "rejected"), by_id)
+            first = c["knobs"][0] if c["knobs"] else {"f": "bytes", "v": "corruption"}
+            what = "panic" if ("panic" in bad[0] or "died" in bad[0]) else "gate"
+            run.report({"what": what, "field": first["f"] + ("=" + first["v"] if what == "panic" and len(c["knobs"]) == 1 else "")}, rc, "adv",
+                       "%s: %s" % (adv_text(c), "; ".join(bad)), (lambda rc=rc: rc is not None))
+    run.traces += len(cases)
+    run.sample({"case": adv_text(cases[100]), "must_be_rejected": cases[100]["gated"]})
+    run.sample({"case": adv_text(cases[-1])})
+
+
+def replay_adv(run, body):
+    driver = core.build_driver(run.work)
+    run.count("replay")
+    run.count("replay2")
+    for c, o in run_window(driver, "adv", body["case"]):
+        bad = adv_judge(c, o)
+        if bad:
+            run.report(body["sig"], body["case"], "adv", "replayed: %s: %s" % (adv_text(c), "; ".join(bad)))
+            return
+
+
+REPLAYERS["adv"] = replay_adv
